@@ -333,8 +333,8 @@ fn files_phase(
     scratch: &Path,
     n: usize,
     rs: &RuntimeSettings,
-    export: impl FnOnce(&slinky::EscapedPath) -> Result<(), SlinkyError>,
-    save: impl FnOnce() -> Result<(), SlinkyError>,
+    export: impl Fn(&slinky::EscapedPath) -> Result<(), SlinkyError>,
+    save: impl Fn() -> Result<(), SlinkyError>,
 ) -> String {
     let root = scratch.join(format!("c{}", n));
     let _ = std::fs::remove_dir_all(&root);
@@ -342,7 +342,18 @@ fn files_phase(
     let old = std::env::current_dir().unwrap();
     std::env::set_current_dir(&root).unwrap();
     let out = rs.escape_path(Path::new("OUT.ld")).unwrap();
-    let r = export(&out).and_then(|_| save());
+    let mut r = export(&out).and_then(|_| save());
+    if r.is_ok() && std::env::var_os("SLINKY_VERIF_DIRTY").is_some() {
+        // history: every file of the first generation is left behind, longer than before, and the
+        // generation is repeated into the same directory
+        let mut first = Vec::new();
+        walk(&root, &root, &mut first);
+        for (p, c) in &first {
+            let stale = format!("{}\n/* stale */\n{}", c, "X".repeat(257));
+            std::fs::write(root.join(p), stale).unwrap();
+        }
+        r = export(&out).and_then(|_| save());
+    }
     std::env::set_current_dir(&old).unwrap();
     let res = match r {
         Err(e) => jobj(vec![("err", jerr(&e))]),
